@@ -69,6 +69,7 @@ def run_route(F, which, dim=None, periodic=None, mask_variant=None):
     b = entry_bodies(F)[which]
     no = [x['path'] for x in F.bodies if strip_generics(x['path']).endswith(OPAQUE)]
     ip = I.Interp(F, no_inline=no)
+    ip.unroll_limit = 4        # `for axis in dim..3 { anchor[axis] = ..; }`: loops over the axes are evaluated concretely when the dimensionality is
     r = Route()
     r.which, r.body, r.ip = which, b, ip
     args = []
